@@ -21,7 +21,7 @@ ASSUMPTIONS = ["same-cycle erase + re-write of one dictionary key is not generat
 
 
 def examples(tier):
-    return 3000 if tier == "quick" else 50000
+    return 5000 if tier == "quick" else 80000
 
 
 def budget_s(tier):
